@@ -487,6 +487,56 @@ pub fn gen_value(rng: &mut Rng, max_depth: usize) -> MVal {
     gen_value_b(rng, max_depth, &mut budget)
 }
 
+/// Relax a well-formed value into one that the data model does not allow but a lenient decoder may accept:
+/// non-finite numbers with a unit, arbitrary Ref / Symbol bodies, arbitrary XStr types and dict keys, Uris with
+/// control characters, duplicate column names. Used to widen the set of *accepted texts*, never as an expected value.
+pub fn relax(m: &MVal, rng: &mut Rng) -> MVal {
+    let odd = |rng: &mut Rng| -> String {
+        match rng.below(6) {
+            0 => String::new(),
+            1 => "A b".into(),
+            2 => "é".into(),
+            3 => "9x".into(),
+            _ => gen_string(rng),
+        }
+    };
+    let rd = |d: &MDict, rng: &mut Rng| -> MDict {
+        d.iter()
+            .map(|(k, v)| {
+                let k = if rng.chance(1, 8) { odd(rng) } else { k.clone() };
+                (k, relax(v, rng))
+            })
+            .collect()
+    };
+    match m {
+        MVal::Num(f, u) => {
+            if rng.chance(1, 4) {
+                let us = all_units();
+                let unit = u.clone().or_else(|| Some(us[rng.below(us.len())].name().to_string()));
+                let v = *rng.pick(&[f64::INFINITY, f64::NEG_INFINITY, f64::NAN]);
+                MVal::Num(F(v), unit)
+            } else {
+                MVal::Num(*f, u.clone())
+            }
+        }
+        MVal::Ref(id, dis) => MVal::Ref(if rng.chance(1, 3) { odd(rng) } else { id.clone() }, dis.clone()),
+        MVal::Symbol(s) => MVal::Symbol(if rng.chance(1, 3) { odd(rng) } else { s.clone() }),
+        MVal::XStr(t, v) => MVal::XStr(if rng.chance(1, 3) { odd(rng) } else { t.clone() }, v.clone()),
+        MVal::Uri(s) => MVal::Uri(if rng.chance(1, 3) { format!("{s}\u{1}\n") } else { s.clone() }),
+        MVal::List(l) => MVal::List(l.iter().map(|v| relax(v, rng)).collect()),
+        MVal::Dict(d) => MVal::Dict(rd(d, rng)),
+        MVal::Grid(g) => {
+            let mut n = MGrid { meta: rd(&g.meta, rng), cols: g.cols.iter().map(|c| MCol { name: c.name.clone(), meta: rd(&c.meta, rng) }).collect(), rows: g.rows.iter().map(|r| rd(r, rng)).collect() };
+            n.meta.remove("ver");
+            if n.cols.len() > 1 && rng.chance(1, 6) {
+                n.cols[1].name = n.cols[0].name.clone();
+            }
+            MVal::Grid(Box::new(n))
+        }
+        other => other.clone(),
+    }
+}
+
 /// Wide (not deep) values: more than 128 siblings at one level, so a counter that should track nesting depth
 /// but tracks the number of values instead is noticed.
 pub fn gen_wide(rng: &mut Rng) -> MVal {
